@@ -411,6 +411,7 @@ def _specialise_returns(caller, lo, hi, ret_blocks, off_l, D, target, ret_ty):
             if own is not None:
                 _specialise_block(caller, R, own, cont, D)
             continue
+        done_preds = set()
         for xi in list(preds.get(ri, [])):
             val = _value_at_end(blocks, preds, xi, off_l, ret_ty)
             if val is None:
@@ -419,6 +420,52 @@ def _specialise_returns(caller, lo, hi, ret_blocks, off_l, D, target, ret_ty):
             if _specialise_block(caller, nb, val, cont, D):
                 blocks.append(nb)
                 _retarget(blocks[xi], ri, len(blocks) - 1)
+                done_preds.add(xi)
+        # assignment sites that reach the return block through a shared straight-line tail (drops, storage
+        # ends): give each its own copy of the tail, ending in the specialised return
+        for xi in range(lo, hi):
+            X = blocks[xi]
+            if X.get('cleanup') or xi == ri:
+                continue
+            val = None
+            t = X['term']
+            if t['k'] == 'call' and t.get('dest') is not None and t['dest']['l'] == off_l and not t['dest']['p']:
+                val = _value_at_end(blocks, {}, xi, off_l, ret_ty)
+            else:
+                v = _assigned_value(X, off_l)
+                val = v if v not in (None, 'none-assigned') else None
+            if val is None:
+                continue
+            succ = _succs(X)
+            if len(succ) != 1 or succ[0] == ri and xi in done_preds:
+                continue
+            chain = []
+            cur = succ[0]
+            okc = True
+            while cur != ri:
+                cb_ = blocks[cur]
+                if cb_.get('cleanup') or len(_succs(cb_)) != 1 or cur in chain or len(chain) > 12 or not (lo <= cur < hi):
+                    okc = False
+                    break
+                if _assigned_value(cb_, off_l) != 'none-assigned' or (cb_['term']['k'] == 'call'):
+                    okc = False
+                    break
+                chain.append(cur)
+                cur = _succs(cb_)[0]
+            if not okc or not chain:
+                continue
+            # only worth it when the tail is shared (otherwise the predecessor pass above handled it)
+            nbR = copy.deepcopy(R)
+            if not _specialise_block(caller, nbR, val, cont, D):
+                continue
+            blocks.append(nbR)
+            nxt = len(blocks) - 1
+            for ci in reversed(chain):
+                cc = copy.deepcopy(blocks[ci])
+                _retarget(cc, _succs(blocks[ci])[0], nxt)
+                blocks.append(cc)
+                nxt = len(blocks) - 1
+            _retarget(X, succ[0], nxt)
 
 
 def prune_unreachable(b):
@@ -710,15 +757,21 @@ def _result_args(ty):
     return parts if len(parts) == 2 else None
 
 
+def _closures_first(bodies):
+    """closures (innermost first) before the bodies that create them, so that what is put in place is already desugared"""
+    return sorted(bodies, key=lambda b: -(b.get('path') or '').count('{closure'))
+
+
 def desugar_adaptors(j):
     import re as _re
     if j.get('crate') != 'mrecordlog':
         return 0
     by_id = {b['id']: b for b in j.get('instances', []) if b.get('id') is not None}
     count = 0
-    for b in j.get('instances', []):
-        nblocks = len(b['blocks'])
-        for bi in range(nblocks):
+    for b in _closures_first(j.get('instances', [])):
+        bi = -1
+        while bi + 1 < len(b['blocks']):
+            bi += 1
             blk = b['blocks'][bi]
             t = blk['term']
             if blk.get('cleanup') or t['k'] != 'call' or t.get('target') is None or t.get('dest') is None:
@@ -878,9 +931,10 @@ def desugar_iter_adaptors(j, by_id):
     name_to_body = {}
     for x in j.get('instances', []):
         name_to_body.setdefault(strip_crate(x['name']), x)
-    for b in j.get('instances', []):
-        nblocks = len(b['blocks'])
-        for bi in range(nblocks):
+    for b in _closures_first(j.get('instances', [])):
+        bi = -1
+        while bi + 1 < len(b['blocks']):
+            bi += 1
             blk = b['blocks'][bi]
             t = blk['term']
             if blk.get('cleanup') or t['k'] != 'call' or t.get('target') is None or t.get('dest') is None or t['dest']['p']:
